@@ -250,6 +250,32 @@ func checkErrorHandled(w *World, c *ssa.Call) string {
 	if len(errs) == 0 {
 		return "error result is discarded"
 	}
+	// `return x.Call()` in a function whose results are spilled (defer / named
+	// results): the error is stored into the result variable that the Return loads
+	for _, e := range errs {
+		if refs := e.Referrers(); refs != nil {
+			for _, r := range *refs {
+				st, ok := r.(*ssa.Store)
+				if !ok || st.Val != e {
+					continue
+				}
+				al, ok := st.Addr.(*ssa.Alloc)
+				if !ok {
+					continue
+				}
+				idx := errResultIndex(c.Parent())
+				if idx < 0 {
+					continue
+				}
+				for _, rt := range returnsOf(c.Parent()) {
+					if u, ok := rt.Results[idx].(*ssa.UnOp); ok && u.X == ssa.Value(al) && (st.Block() == rt.Block() || st.Block().Dominates(rt.Block())) {
+						// nothing overwrites it in between on the straight path to that return
+						return ""
+					}
+				}
+			}
+		}
+	}
 	// the error value may also be returned directly via Extract
 	for _, e := range errs {
 		if refs := e.Referrers(); refs != nil {
